@@ -259,13 +259,18 @@ fn build(doc: &str, how: usize) -> Value {
             let w: Value = sonic_rs::from_str(&format!("[0,{}]", doc)).unwrap();
             w[1].clone()
         }
-        _ => {
+        3 => {
             // promoted to owned by a no-op mutation
             use sonic_rs::JsonValueMutTrait;
             let mut v: Value = sonic_rs::from_str(doc).unwrap();
             let _ = v.as_array_mut().map(|a| a.len());
             let _ = v.as_object_mut().map(|a| a.len());
             v
+        }
+        _ => {
+            // raw-number mode: numbers keep their spelling
+            let mut de = sonic_rs::Deserializer::from_str(doc).use_rawnumber();
+            de.deserialize::<Value>().unwrap()
         }
     }
 }
@@ -292,6 +297,19 @@ pub fn equality_universe(q: bool) -> Vec<String> {
         "0",
         "-0.0",
         "0.0",
+        // one value, several spellings (what raw-number mode keeps apart textually)
+        "1.00",
+        "1e0",
+        "10e-1",
+        "1.5",
+        "1.50",
+        "15e-1",
+        "150E-2",
+        "[1.5,{\"a\":1.50}]",
+        "[15e-1,{\"a\":1.5}]",
+        "100",
+        "1e2",
+        "1E+2",
         "\"\"",
         "[]",
         "{}",
@@ -314,8 +332,8 @@ fn model_key(doc: &str) -> (String, bool) {
 pub fn check_equality_pair(ctx: &mut Ctx, a: &str, b: &str) {
     let (ka, da) = model_key(a);
     let (kb, db) = model_key(b);
-    for ha in 0..4 {
-        for hb in 0..4 {
+    for ha in 0..5 {
+        for hb in 0..5 {
             let r = guard(|| {
                 let x = build(a, ha);
                 let y = build(b, hb);
@@ -361,7 +379,7 @@ pub fn check_equality_pair(ctx: &mut Ctx, a: &str, b: &str) {
 
 pub fn check_primitive_eq(ctx: &mut Ctx, doc: &str) {
     let r = guard(|| -> Result<(), String> {
-        for how in 0..4 {
+        for how in 0..5 {
             let v = build(doc, how);
             let n = refjson::parse_doc(doc.as_bytes(), RMode::Decode).unwrap();
             use refjson::{Kind, Num};
@@ -443,17 +461,28 @@ pub fn families(tier: Tier, _variant: &str) -> Vec<Family> {
     let mut v = vec![];
     macro_rules! uni {
         ($t:ty) => {{
-            v.push(Family::of_vec(&format!("routes/{}", <$t as Fam>::NAME), <$t as Fam>::universe(), |x, ctx| check_value::<$t>(ctx, x)));
+            let u = if q { <$t as Fam>::universe() } else { <$t as Fam>::universe_deep() };
+            v.push(Family::of_vec(&format!("routes/{}", <$t as Fam>::NAME), u, |x, ctx| check_value::<$t>(ctx, x)));
         }};
     }
     crate::for_each_fam!(uni);
     // nested combinations: every universe value wrapped in Option / Vec / map / enum
     macro_rules! wrapped {
         ($t:ty) => {{
-            let items: Vec<(Option<$t>, Vec<$t>, BTreeMap<String, $t>)> = <$t as Fam>::universe()
+            // thorough: every 1 + n/600-th value of the deep universe (the wrapping is what is tested)
+            let uni = || -> Vec<$t> {
+                if q {
+                    <$t as Fam>::universe()
+                } else {
+                    let u = <$t as Fam>::universe_deep();
+                    let step = 1 + u.len() / 600;
+                    u.into_iter().step_by(step).collect()
+                }
+            };
+            let items: Vec<(Option<$t>, Vec<$t>, BTreeMap<String, $t>)> = uni()
                 .into_iter()
-                .zip(<$t as Fam>::universe().into_iter())
-                .zip(<$t as Fam>::universe().into_iter())
+                .zip(uni().into_iter())
+                .zip(uni().into_iter())
                 .map(|((a, b), c)| (Some(a), vec![b], [("k".to_string(), c)].into_iter().collect()))
                 .collect();
             v.push(Family::of_vec(&format!("routes/wrapped/{}", <$t as Fam>::NAME), items, |x, ctx| {
